@@ -35,6 +35,10 @@ def replay(obj, pid=None):
         print(json.dumps(obj, indent=1)[:4000])
         print("(no executable replay for this record)")
         return 0
+    if obj.get("batch_instances") and obj.get("batch_actions") and "actions" not in obj:
+        print("signature:", obj.get("signature")); print("what     :", obj.get("what"))
+        print("(batched checker / batched get_reward record: rows and actions are in the file; re-run `./check %s` to re-judge it)" % pid)
+        return 0
     a = adapters[name]
     variant = obj.get("variant") or {}
     env = a.make_env(variant)
